@@ -37,7 +37,8 @@ TMP = c01.TMP
 
 ALL_FORMS = ["ndarray", "ndarray_int", "ndarray_bool", "ndarray_f32",
              "lists", "triples", "triples_zeros", "dict", "dict_zeros",
-             "list_arrays", "list_dicts", "list_sparse", "csr", "csc", "coo",
+             "list_arrays", "list_arrays_mixed", "list_dicts", "list_sparse",
+             "csr", "csc", "coo",
              "lil", "dok", "bsr", "dia", "csr_unsorted", "csc_unsorted",
              "coo_dups_free_shuffled"]
 
@@ -109,6 +110,7 @@ def malformed_case(draw, tier):
             "junk": draw(st.sampled_from([1, 0, "x", "", ["a"], [], 2.5,
                                           True, False, ["k", "v"]])),
             "all_junk": draw(st.booleans()),
+            "zero_matrix": draw(st.sampled_from([False, False, True])),
             "form": draw(st.sampled_from(["ndarray", "csr", "lists",
                                           "dict"])),
             "rows": None}
@@ -149,6 +151,18 @@ def encode(rows, form):
         return d, {}
     if form == "list_arrays":
         return [a[i].copy() for i in range(n)], {}
+    if form == "list_arrays_mixed":
+        # every row array in the narrowest dtype that holds it exactly
+        out = []
+        for i in range(n):
+            r = a[i]
+            if np.all((r == 0) | (r == 1)):
+                out.append(r.astype(bool))
+            elif np.all(r == np.floor(r)) and np.all(np.abs(r) < 2 ** 31):
+                out.append(r.astype(np.int32))
+            else:
+                out.append(r.copy())
+        return out, {}
     if form == "list_dicts":
         out = []
         for i in range(n):
@@ -375,6 +389,9 @@ def check_malformed(case, rec):
     from biom.exception import TableException
     n, m, defect = case["n"], case["m"], case["defect"]
     a = np.arange(1, n * m + 1, dtype=float).reshape(n, m)
+    if case.get("zero_matrix"):
+        a = a * 0.0       # a table of zeros is still a non-empty table
+        rec.cls("malformed:all-zero-matrix")
     obs = ["o%d" % i for i in range(n)]
     samp = ["s%d" % j for j in range(m)]
     omd = smd = None
